@@ -426,6 +426,10 @@ def obligations(tier):
                      ('slice', True, True, -1), ('list', 1)]
         for d1, d2 in itertools.combinations(dims, 2):
             for k1, k2 in itertools.product(kinds, kinds):
+                if k1[0] == 'list' and k2[0] == 'list' and k1 != k2:
+                    # index lists of different lengths are outside the
+                    # property (the library rejects them with ValueError)
+                    continue
                 obs.append(Slice(spec, {d1: k1, d2: k2}))
                 if k1 != k2 and (tier == 'thorough' or (
                         (k1[0] == 'list' or k2[0] == 'list')
